@@ -53,6 +53,7 @@ type depWorld struct {
 	evm      []byte
 	evm2     []byte
 	filler   map[uint64][]byte
+	lastErr  string // why the last evaluated batch was refused
 }
 
 func c03Genesis() *sim.GenesisCfg {
@@ -408,6 +409,7 @@ func (w *depWorld) eval(c *depCase) (accepted bool, violation string, class stri
 	tctx, _ := ctx.CacheContext()
 	_, err, _ = w.n.Deliver(tctx, b.msg)
 	if err != nil {
+		w.lastErr = err.Error()
 		return false, "", ""
 	}
 	for _, d := range b.msg.Deposits {
@@ -584,8 +586,12 @@ func runC03(r *mc.Run) {
 		} else {
 			if len(c.Devs) == 0 {
 				r.Outcome("genuine-rejected")
+				r.Reason(fmt.Sprintf("genuine:h=%d,pos=%d", c.Height, c.Pos), w.lastErr)
 			} else {
 				r.Outcome("deviated-rejected")
+				if len(c.Devs) == 1 {
+					r.Reason(c.Devs[0], w.lastErr)
+				}
 			}
 		}
 		if i%499 == 0 {
